@@ -97,7 +97,7 @@ def main(chk):
 
     def one(k):
         d = env.subdir('c02-n%d' % k)
-        return k, progs.run_program(w2c2, ('c02-nested', k), prof, d, pbuilds, n_funcs=10, vectors=vectors)
+        return k, progs.run_program(w2c2, ('c02-nested', k), prof, d, pbuilds, n_funcs=10, vectors=vectors, opts=progs.opts_for(k))
 
     rejected = 0
     for k, res in env.pmap(one, range(nmods)):
